@@ -374,6 +374,9 @@ func runLive(r *rec, g *rng, tier, what, replay, out string, extra map[string]in
 			mon.Write(append(b, '\n'))
 		}
 		expectListed = map[string]expectation{}
+		hangCtx.Store("session", si)
+		hangCtx.Store("seed", base)
+		hangCtx.Store("tier", tier)
 		r.emit("reset", fmt.Sprintf("reset session=%d live", si), "ok")
 		s.opAdd(r, s.sentinel, 0x1f, false)
 		if wd, ok := s.wdOf(s.sentinel, false); ok {
